@@ -15,7 +15,7 @@ for name, rel in (("__lt__", "<"), ("__le__", "<="), ("__gt__", ">"), ("__ge__",
     contract(M + ":Time." + name, "C14", model="R", params={"other": "Time"}, returns="bool",
              requires=["fin(self)", "fin(other)"],
              ensures=["result == (val(self) %s val(other))" % rel],
-             canary="result == (val(self) %s val(other) + 1)" % rel,
+             canary="result == (val(self) %s val(other) + 1)" % rel, native_tol=0,
              note="comparison agrees with the exact rational order of quotient+remainder (finite normalised times)")
 
 # ---- arithmetic in the reals: the structure of the computation (which pieces are added where)
